@@ -41,6 +41,7 @@ theorem runLoop_inv (w : World) (o : Opts) :
       exact ⟨hinv, hq⟩
     · simp only [hq, Bool.false_eq_true, if_false] at hrun
       apply ih _ out _ hrun
+      unfold iter
       apply (good_drain w o).inv none
       rcases hp : st.pending with _ | ⟨r, rest⟩
       · simp only [hp]
